@@ -1,11 +1,82 @@
-"""C17 — session behaviour is a function of its inputs, not of hash order."""
+"""C17 — session behaviour is a function of its inputs, not of hash order.
+
+levels: L4 simulation with `repeat` (every scenario is run twice, all observations compared), session
+correspondence (model = a function of the script, so any hash-order dependence shows as a disagreement),
+and `desync-repeat`: desync-detection scripts for one real P2PSession (several checksum reports pending at
+once, some of them wrong) are run in independent processes - HashMap seeds differ per process - and every
+answer line (reports sent, DesyncDetected events with their order per call, histories, pending maps in
+canonical order) must be identical."""
+import json
 from . import families as F
 from .simprops import generic_run, sizes, sim_replay
 from .p_session import run_session_correspondence
+from . import p_C09
 LABELS = {"C17", "PANIC"}
+
+REPEATS = 4
+
+def first_difference(scens, outs):
+    i = 0
+    for s in scens:
+        n = len(s["lines"])
+        ref = outs[0][i:i + n]
+        for k in range(1, len(outs)):
+            other = outs[k][i:i + n]
+            for j, (a, b) in enumerate(zip(ref, other)):
+                if a != b:
+                    return s, j, a, b
+        i += n
+    return None
+
+def run_desync_repeat(ctx):
+    rng = ctx.rng
+    n = 240 if ctx.thorough else 40
+    scens = [p_C09.gen_scenario(rng, honest=False) for _ in range(n)]
+    script = [l for s in scens for l in s["lines"]]
+    outs = [ctx.run_impl("desync", script, "debug") for _ in range(REPEATS)]
+    mon = ctx.cov["monitors"].setdefault("desync_repeat", {"scenarios": 0, "ops": 0, "runs_each": REPEATS, "calls_with_two_or_more_pending": 0, "events": 0})
+    mon["scenarios"] += n; mon["ops"] += len(script)
+    for r in outs[0]:
+        m = p_C09.DS.search(r)
+        if m:
+            mon["calls_with_two_or_more_pending"] += m.group(7).count(":") >= 2
+            mon["events"] += m.group(4) != "-"
+    d = first_difference(scens, outs)
+    if d:
+        s, j, a, b = d
+        ctx.hit("hash-order", "the same script gives different answers in two runs: op #%d `%s` -> `%s` vs `%s` (%s)" %
+                (j, s["lines"][j], a[-150:], b[-150:], s["lines"][0]), {"level": "desync-repeat", "scenario": s})
+    for s in scens:
+        ctx.count(nontrivial_key=("desync-repeat", s["lines"][0], len(s["lines"])))
+    ctx.cov["traces_validated_against_impl"] += len(script) * (REPEATS - 1)
+
+def extra(ctx):
+    run_session_correspondence(ctx)
+    run_desync_repeat(ctx)
+
 def run(ctx):
-    generic_run(ctx, LABELS, extra=run_session_correspondence, plan=[("repeat", lambda: F.fam_c01(ctx.rng, sizes(ctx, 300, 3000), tag="c17", expect=("nodisconnect", "repeat"))),
+    generic_run(ctx, LABELS, extra=extra, plan=[("repeat", lambda: F.fam_c01(ctx.rng, sizes(ctx, 300, 3000), tag="c17", expect=("nodisconnect", "repeat"))),
                               ("repeat_double_death", lambda: F.fam_double_death(ctx.rng, sizes(ctx, 60, 600), tag="c17dd", expect=("repeat",))),
                               ("repeat_delay", lambda: F.fam_delay(ctx.rng, sizes(ctx, 120, 1200), tag="c17d", expect=("nodisconnect", "repeat")))])
+
 def replay(ctx, path):
-    return sim_replay(ctx, path, LABELS)
+    body = json.load(open(path))
+    bad = 0
+    rest = []
+    for h in body.get("failing_inputs", []):
+        rp = h.get("replay", {})
+        if rp.get("level") == "desync-repeat":
+            ctx.needed_consts = []; ctx.consts = {}
+            ctx.build_harness(("debug",))
+            outs = [ctx.run_impl("desync", rp["scenario"]["lines"], "debug") for _ in range(3 * REPEATS)]
+            d = first_difference([rp["scenario"]], outs)
+            print("replay desync-repeat scenario (%d ops, %d runs) -> %s" % (len(outs[0]), len(outs), ("op #%d differs: `%s` vs `%s`" % (d[1], d[2][-120:], d[3][-120:])) if d else "all runs agree"))
+            bad += bool(d)
+        else:
+            rest.append(h)
+    if rest or not body.get("failing_inputs"):
+        rc = sim_replay(ctx, path, LABELS)
+        return 1 if (rc or bad) else 0
+    if bad:
+        print("VIOLATION property=C17 replay=%s" % path)
+    return 1 if bad else 0
